@@ -2,7 +2,8 @@
    implementation against M (over the tables regenerated from control.go) and against S. *)
 From C15 Require Import Interp.
 
-Record case := { k_ctl : string; k_args : list value; k_obs : option (list N) }.   (* None: format signalled an error *)
+Inductive obs := ObsText (bytes : list N) | ObsError | ObsHang.   (* the returned string; an error was signalled; no return within 3 s *)
+Record case := { k_ctl : string; k_args : list value; k_obs : obs }.
 
 Fixpoint bytes_eqb (a b : list N) : bool :=
   match a, b with
@@ -10,10 +11,11 @@ Fixpoint bytes_eqb (a b : list N) : bool :=
   | x :: a', y :: b' => N.eqb x y && bytes_eqb a' b'
   | _, _ => false
   end.
-Definition matches (o : outcome) (obs : option (list N)) : bool :=
-  match o, obs with
-  | OText t, Some bs => bytes_eqb (bytes_of t) bs
-  | OError, None => true
+Definition matches (o : outcome) (ob : obs) : bool :=
+  match o, ob with
+  | OText t, ObsText bs => bytes_eqb (bytes_of t) bs
+  | OError, ObsError => true
+  | OFuel, ObsHang => true          (* the model's loop does not end either *)
   | _, _ => false
   end.
 Definition outcome_eqb (a b : outcome) : bool :=
